@@ -45,14 +45,14 @@ def gen_scenario(prop, seed):
     return doc
 
 
-def exec_scenario(sc, timeout=600):
+def exec_scenario(sc, timeout=600, hash_seed=None):
     with tempfile.NamedTemporaryFile("w", suffix=".json", dir=SHM, delete=False) as f:
         json.dump(sc, f)
         p = f.name
     try:
         # a scenario file says itself which mode it belongs to (C04 has parts in both)
         mode = "pool-exec" if sc.get("kind") == "pool" else ("exec" if "tree" in sc else MODE["exec"])
-        doc, _ = run_json([BIN, mode, "--scenario", p, "--hash-seed", str(sc["seed"])], env=_env(), timeout=timeout)
+        doc, _ = run_json([BIN, mode, "--scenario", p, "--hash-seed", str(sc["seed"] if hash_seed is None else hash_seed)], env=_env(), timeout=timeout)
     finally:
         os.unlink(p)
     return doc
